@@ -18,9 +18,10 @@ K = 'klongpy/sys_fn_timer.py::'
 
 
 # ------------------------------------------------------------------ ghost object builders
-def mk_handle(st, timer, live, when=None, fn=None):
+def mk_handle(st, timer, live, when=None, fn=None, n=None):
     return st.alloc('Handle', {'__live': lift(live), '__when': when if when is not None else fresh(Real, 'when'),
-                               '__timer': timer if timer is not None else NONE, '__fn': fn if fn is not None else NONE}, fresh=False)
+                               '__timer': timer if timer is not None else NONE, '__fn': fn if fn is not None else NONE,
+                               '__n': n if n is not None else NONE}, fresh=False)      # __n: the extra argument scheduled for run(handle, n)
 
 
 def mk_timer(st, delegate, stopped, nlive, interval=None):
@@ -62,8 +63,8 @@ def loop_time(eng, st, args, kwargs, node):
     return [(st, now)]
 
 
-def _schedule(st, when, fn, arg):
-    h = mk_handle(st, arg, True, when, fn)
+def _schedule(st, when, fn, arg, n=None):
+    h = mk_handle(st, arg, True, when, fn, n)
     st.fresh_objs.add(h.oid)
     if isinstance(arg, VObj) and arg.cls == 'KGTimerHandler':
         st.setfield(arg, '__nlive', st.field(arg, '__nlive') + 1)
@@ -72,7 +73,7 @@ def _schedule(st, when, fn, arg):
 
 
 def loop_call_soon(eng, st, args, kwargs, node):
-    return [(st, _schedule(st, st.ghost['now'], args[0], args[1]))]
+    return [(st, _schedule(st, st.ghost['now'], args[0], args[1], args[2] if len(args) > 2 else None))]
 
 
 def loop_call_later(eng, st, args, kwargs, node):
@@ -80,7 +81,7 @@ def loop_call_later(eng, st, args, kwargs, node):
     if not isinstance(delay, (VInt, VReal)):
         raise Refuse("call_later delay is not numeric")
     # assumption: no time passes between evaluating the delay and call_later reading the clock
-    return [(st, _schedule(st, st.ghost['now'] + delay, args[1], args[2]))]
+    return [(st, _schedule(st, st.ghost['now'] + delay, args[1], args[2], args[3] if len(args) > 3 else None))]
 
 
 def handle_cancelled(eng, st, args, kwargs, node):
@@ -95,7 +96,7 @@ def handle_cancelled(eng, st, args, kwargs, node):
 
 
 def loop_call_at(eng, st, args, kwargs, node):
-    return [(st, _schedule(st, args[0], args[1], args[2]))]
+    return [(st, _schedule(st, args[0], args[1], args[2], args[3] if len(args) > 3 else None))]
 
 
 def handle_cancel(eng, st, args, kwargs, node):
@@ -130,6 +131,8 @@ def callback_model(T):
                 s.trail.append('callback:left-timer-alone')
             s.ghost['calls'] = s.ghost['calls'] + 1
             r = VOpaque(hint='r')
+            s.ghost['cb_ret'] = r                   # what the callback returned / whether it stopped its own timer: the tick's
+            s.ghost['cb_stopped'] = lift(stops)     # postcondition says when the timer goes on
             outs.append((s, r))
             s2 = s.fork()
             outs.append(eng.exc(s2, '<any>', node))
@@ -137,10 +140,27 @@ def callback_model(T):
     return model
 
 
+RUN_N = {'default': None}     # default of run's parameter `n` (the boundary index) in the current source; None: run has no such parameter
+
+
+def _run_n_default(src):
+    node = src.find(K + '_call_periodic.run')
+    if node is None:
+        return None
+    a = node.args
+    pos = a.posonlyargs + a.args
+    for p, d in zip(pos[len(pos) - len(a.defaults):], a.defaults):
+        if p.arg == 'n' and isinstance(d, __import__('ast').Constant) and isinstance(d.value, int):
+            return d.value
+    return None
+
+
 def build(reg, src):
+    RUN_N['default'] = _run_n_default(src)
     reg.assumptions += [
         "floats are treated as mathematical reals (loop.time(), interval arithmetic, % on a positive real divisor)",
-        "asyncio loop contract: call_soon/call_later/call_at return a fresh live handle that fires at most once, not before its time, "
+        "asyncio loop contract: call_soon/call_later/call_at return a fresh live handle that fires at most once, not earlier than the loop's clock "
+        "resolution before its time (BaseEventLoop._run_once: due when `when < time() + clock_resolution`; resolution < interval assumed), "
         "never after cancel(); loop.time() is monotone; callbacks run to completion one at a time (no overlap) - DESIGN section 3",
         "no time passes between evaluating call_later's delay argument and call_later reading the clock",
         "the callback can reach this timer only through KGTimerHandler.cancel (its contract is applied) and cannot schedule `run` itself",
@@ -183,7 +203,14 @@ def build(reg, src):
         st.ghost['calls'] = lift(0)
         st.ghost['scheduled'] = lift(0)
         T = mk_timer(st, NONE, False, 0, interval=st.env['interval'])
-        fired = mk_handle(st, T, False)
+        iv, start = st.env['interval'], st.env['start']
+        # the handle that fired: scheduled for the boundary start + m*interval (m >= 1: every scheduling of `run` is at a boundary -
+        # the postconditions of _call_periodic and of run say so); with interval 0 it was scheduled "soon" (not after now)
+        m = fresh(Int, 'm')
+        when0 = fresh(Real, 'when0')
+        st.assume(m >= 1)
+        st.assume(Implies(iv > 0, when0 == start + m * iv))
+        fired = mk_handle(st, T, False, when=when0, n=m)
         st.setfield(T, 'delegate', fired)
         st.env['handle'] = T
         st.env['fn'] = VFunc('callback', model=callback_model(T))
@@ -191,7 +218,15 @@ def build(reg, src):
         st.env['run'] = VFunc('run', key=None, model=lambda *a: (_ for _ in ()).throw(Refuse("run called directly")))
         st.env['__fired'] = fired
         st.env['__k'] = fresh(Int, 'k')
+        st.env['__m'] = m
+        if RUN_N['default'] is not None:
+            st.env['n'] = m            # run(handle, n): the scheduling sites pass the boundary index (their postconditions: __n)
+        # asyncio dispatches a timer when `when < time() + clock_resolution`: up to the resolution BEFORE its deadline
+        res = fresh(Real, 'clock_resolution')
+        st.assume(And(res >= 0, Implies(iv > 0, res < iv)))
         st.assume(st.ghost['now'] >= st.env['start'])
+        st.assume(Implies(iv > 0, st.ghost['now'] > when0 - res))
+        st.assume(Implies(iv == 0, st.ghost['now'] >= when0))
 
     def run_post(s, r):
         T = s.handle
@@ -200,16 +235,24 @@ def build(reg, src):
         parts = [RI_rest(st, T), s.g('calls') == 1]     # the callback was invoked exactly once in this tick
         stopped = st.field(T, '__stopped')
         parts.append(s.g('scheduled') == If(stopped, 0, 1))
+        # the timer goes on exactly when the callback returned true (Python truth of the value, as `if r`) and did not stop it
+        r_ = s.g('cb_ret')
+        parts.append(stopped == Or(s.g('cb_stopped'), Not(And(r_.pred('truth'), Not(r_.pred('isnone'))))))
         if isinstance(d, VObj) and d is not s._cur['__fired']:
             when = st.field(d, '__when')
             now = s.g('now')
             iv = s.interval
-            # next boundary strictly after now: when - start = (k+1)*interval where k = floor((now-start)/interval) is the
-            # skolem constant defined by the post_hint below (independent of how the code computes the delay)
-            k = s._cur['__k']
-            parts.append(Implies(iv > 0, And(when - s.start == (k + 1) * iv, when > now, when - now <= iv)))
+            # the next boundary after the one served (m) and strictly after now: when - start = (max(m, k) + 1)*interval where
+            # k = floor((now-start)/interval) is the skolem constant defined by the post_hint below (independent of how the code
+            # computes it): never twice for one boundary (> m), not in the past, no boundary skipped that was not missed
+            k, m = s._cur['__k'], s._cur['__m']
+            j = If(m >= k, m, k) + 1
+            parts.append(Implies(iv > 0, And(when - s.start == j * iv, when > now)))
             parts.append(Implies(iv == 0, when == now))
             parts.append(same(st.field(d, '__fn'), s._cur['run']))
+            if RUN_N['default'] is not None:
+                nn = st.field(d, '__n')
+                parts.append(Implies(iv > 0, (nn if isinstance(nn, VInt) else lift(RUN_N['default'])) == j))
         return And(*parts)
 
     reg.fn(K + '_call_periodic.run', params=dict(interval=Int, start=Real), setup=run_setup, returns=None,
@@ -235,7 +278,9 @@ def build(reg, src):
         if not s.has('start'):      # at call sites only the caller-visible part is assumed
             return And(RI_rest(st, r), Not(st.field(r, '__stopped')), st.field(r, 'interval') == s.interval)
         start = s._cur['start']
-        return And(RI_rest(st, r), Not(st.field(r, '__stopped')), st.field(d, '__live'),
+        nn = st.field(d, '__n')
+        first = (nn if isinstance(nn, VInt) else lift(RUN_N['default'])) == 1 if RUN_N['default'] is not None else VBool(True)
+        return And(RI_rest(st, r), Not(st.field(r, '__stopped')), st.field(d, '__live'), Implies(s.interval > 0, first),
                    If(s.interval == 0, st.field(d, '__when') == start, st.field(d, '__when') == start + s.interval),
                    same(st.field(d, '__fn'), s._cur['run']), s.g('scheduled') == 1,
                    st.field(r, 'interval') == s.interval)
